@@ -50,6 +50,7 @@ type scenario struct {
 	HostActive bool
 	Device     uint16
 	Retry      int
+	SlowLine   bool
 	Coalesce   int // 0 every write is its own segment; 1 writes join a segment still in flight; 2 per write
 	T1, T2, T4 time.Duration
 	Senders    [2]int
@@ -134,6 +135,7 @@ func genScenario(t *core.Tape, faulty bool) scenario {
 	sc.Senders = [2]int{1 + t.Choose("scn", 3), 1 + t.Choose("scn", 3)}
 	sc.PerSender = 1 + t.Choose("scn", 5)
 	sc.Coalesce = t.Weighted("scn", 2, 1, 1)
+	sc.SlowLine = t.Choose("scn", 3) == 0
 	if faulty {
 		sc.FaultRate = []int{6, 12, 25}[t.Choose("scn", 3)]
 		sc.FaultsFor = time.Duration(1+t.Choose("scn", 6)) * time.Second
@@ -217,7 +219,7 @@ func Build(config string) core.BuildFunc {
 func (h *harness) describe() map[string]any {
 	sc := h.sc
 
-	return map[string]any{"hostActive": sc.HostActive, "device": sc.Device, "retryLimit": sc.Retry, "coalesce": sc.Coalesce, "T1": sc.T1.String(), "T2": sc.T2.String(), "T4": sc.T4.String(), "sendersHost": sc.Senders[0], "sendersEquip": sc.Senders[1],
+	return map[string]any{"hostActive": sc.HostActive, "device": sc.Device, "retryLimit": sc.Retry, "coalesce": sc.Coalesce, "slowLine": sc.SlowLine, "T1": sc.T1.String(), "T2": sc.T2.String(), "T4": sc.T4.String(), "sendersHost": sc.Senders[0], "sendersEquip": sc.Senders[1],
 		"sendsEach": sc.PerSender, "faultRate": sc.FaultRate, "contentionBias": sc.Bias, "faultsFor": sc.FaultsFor.String()}
 }
 
@@ -474,6 +476,17 @@ func (h *harness) seg(p *simnet.Pipe, n int) []simnet.SegPlan {
 		h.delayChar = false
 
 		return []simnet.SegPlan{{Size: n, Delay: h.sc.T2 + 20*time.Millisecond}}
+	}
+
+	if h.sc.SlowLine && n > 12 && h.w.T.Choose("net", 3) == 0 {
+		// a slow but healthy line (a serial bridge, a segmenting relay): the block arrives in pieces whose
+		// gaps are each well below T1 although the whole takes longer than T1 — not a fault, nothing E4
+		// has to detect
+		h.w.Probe("block_dribbled_with_sub_T1_gaps")
+		g := h.sc.T1 * 4 / 10
+		q := n / 4
+
+		return []simnet.SegPlan{{Size: q, Delay: time.Millisecond}, {Size: q, Delay: g}, {Size: q, Delay: g}, {Size: n - 3*q, Delay: g}}
 	}
 
 	return []simnet.SegPlan{{Size: n, Delay: time.Millisecond}}
